@@ -54,7 +54,12 @@ def text(kind, i):
   """payload text of packet number i of a kind; number 2 is the blank packet (header only)"""
   if i == 2:
     return ''
-  return {'INFO': 'info-%d', 'OKAY': 'payload-%d', 'FAIL': 'reason-%d'}[kind] % i
+  t = {'INFO': 'info-%d', 'OKAY': 'payload-%d', 'FAIL': 'reason-%d'}[kind] % i
+  # device text is arbitrary: in every second history it carries per-cent signs and format directives
+  return t + FLAVOUR[0]
+
+
+FLAVOUR = ['']
 
 
 def concrete_packet(p, size):
@@ -63,7 +68,7 @@ def concrete_packet(p, size):
     return kind + text(kind, i)
   if kind == 'DATA':
     return 'DATA%08x' % (size if i == 1 else size + 1)
-  return 'WXYZjunk'
+  return 'WXYZjunk' + FLAVOUR[0]
 
 
 def image(size):
@@ -76,6 +81,7 @@ def replay_one(h):
   ue = usbfake.usb_exceptions
   bad = []
   size = h['size']
+  FLAVOUR[0] = ' 5% left (%s, %d, 100%)' if len(h['script']) % 2 else ''
   rx = [concrete_packet(tuple(p), size) for p in h['script']]
 
   class Usb:
@@ -135,7 +141,7 @@ def replay_one(h):
     if got[0] != 'error' or got[1] != exp[1]:
       bad.append('command %s, model says it raises %s' % (
           'returned' if got[0] == 'ok' else 'raised ' + got[1], exp[1]))
-    elif exp[1] == 'FastbootRemoteFailureError' and ('reason-%d' % exp[2]) not in got[2]:
+    elif exp[1] == 'FastbootRemoteFailureError' and text('FAIL', exp[2]) not in got[2]:
       bad.append('remote failure error does not carry the device text')
   # packets
   exp_sent = []
